@@ -133,10 +133,16 @@ def main(argv=None) -> int:
                   f"{floors['min_decided']}; the analysis no longer applies to this tree and must be re-confirmed")
             return 2
         lost = lost_confirmed(ctx, floors)
-        if lost and not any(o.status == "violated" for o in ctx.obs) and not args.replay:
+        from .report import load_known
+
+        known_keys = {(k["rule"], k["function"], k["construct"]) for k in load_known().get("findings", []) if k.get("property") == pid and k.get("status") == "known"}
+        if lost and not any(o.status == "violated" and o.key not in known_keys for o in ctx.obs) and not args.replay:
             finish(ctx, t0, seed, floors, None)
+            det = {o.key: o for o in ctx.obs}
             for k in lost[:8]:
-                print(f"  no longer decidable: {k[0]} {k[1]}: {k[2]}")
+                o = det.get(k)
+                why = f" -- {o.detail[:260]} [{o.file}:{o.line}]" if o is not None and o.detail else " -- the construct is no longer found"
+                print(f"  no longer decidable: {k[0]} {k[1]}: {k[2]}{why}")
             print(f"ANALYSIS-ERROR property={pid}: {len(lost)} obligation(s) confirmed on the reference tree can no longer be decided on this tree "
                   f"(the code is in a shape the checker does not recognise); nothing is claimed about them until they are re-confirmed")
             return 2
